@@ -551,7 +551,7 @@ pub fn run(ctx: &Ctx, rep: &Report) -> Meta {
                (b) single-bit flips of the proof octets (all bits for the all-bit-flips proofs with U in {0,1,3}; 96 sampled bits otherwise); \
                (c) attacker programs from public data only: Abar, Bbar in {O, Bv, P1, Q1, H1, rnd}^2 x D in {O, Bv, k*Bv, P1, rnd} with responses solving T1/T2 where possible, \
                the (P, t*P, k*Bv) family that only the pairing stops, each as octets and as a serde-built object, plain and blind verifier; negative control t = sk must be accepted; \
-               oracle: every edited / flipped / forged proof is rejected; non-trivial = honest case with all three groups executed; evaluations = rejected-verification checks"
+               size sweep over L in 9..=40 (quick) / 9..=100 (thorough) and 63..65 with sampled positions; concurrent-verifiers: 16 threads verifying their own honest proof and an edited statement in turn with transcripts above 1 KiB; half of the cases after a warm-up history; oracle: every edited / flipped / forged proof is rejected; non-trivial = honest case with all three groups executed; evaluations = rejected-verification checks"
             .into(),
         assumptions: vec![
             "forgery families are the named ones (identity / Bv / P1 / generators / random, responses cancelling the recomputation); other adversaries are not covered".into(),
